@@ -20,7 +20,7 @@ CHECKS = {
         category="model_checking",
         engine="E1/E2 + H4",
         technique="exhaustive enumeration of event schedules (snapshot pushes, watcher runs, subscription point, read placements) around the real watch_membership_changes task, with a subscriber built exactly like DatacakeNode::membership_changes()",
-        text="All snapshot sequences up to length 4 (quick) / 5 (thorough) over 7 snapshots (peers 1 and 2, each absent or at one of two addresses which they can hand over to each other: joins, leaves, address changes, rejoin, replacement on the same address, takeover of a departed node's address), every burst pattern, every subscription point, every subset of read positions. Oracle at quiescence: the subscriber's map (left applied before joined) equals the live peers with addresses; every departure appears in some `left` with the address the node had; a prompt subscriber never diverges. The lost-delta defect for late/slow subscribers is a recorded known finding (7 failure-mode keys); every other failure mode is reported as a violation.",
+        text="All snapshot sequences up to length 4 (quick) / 5 (thorough) over 7 snapshots (peers 1 and 2, each absent or at one of two addresses which they can hand over to each other: joins, leaves, address changes, rejoin, replacement on the same address, takeover of a departed node's address), every burst pattern, every subscription point, every subset of read positions. Oracle at quiescence: the subscriber's map (left applied before joined) equals the live peers with addresses; every departure appears in some `left` with the address the node had; a prompt subscriber never diverges. The lost-delta defect for late/slow subscribers is a recorded known finding (7 failure-mode keys); every other failure mode is reported as a violation. Second block (services): the store's own watch_membership_changes task, the distributor's and the poller's membership bookkeeping and the poller's real replication_cycle loop (hook H8) run on node 0 behind the real watcher; every snapshot sequence up to length 3 (quick) / 4 (thorough) x settled/bursty pushes x every subset of probe positions; at each probe a batched write, a level-All write, one batching round and one repair interval must reach, and pull from, exactly the addresses of live peers, and no request may go to an address without one.",
         note="Membership enters as explicit snapshots on the channel chitchat would publish to; the gossip layer itself is not explored.",
         design="DESIGN.md section 3, C16",
     ),
@@ -44,7 +44,7 @@ CHECKS = {
         category="fault_enumeration",
         engine="E3 (turmoil, separate binary vsim)",
         technique="exhaustive enumeration of fault scripts (hold/release/partition/repair at 16 decision instants, <=1 event quick / <=2 thorough) over the real hyper/h2 client and server on turmoil's simulated network with fixed latency and seeded RNG; every run repeated for reproducibility; workers in child processes",
-        text="Workloads: three sequential requests; two concurrent first requests on a fresh channel; three concurrent requests on a warmed-up connection; one 1 MiB request (multi-chunk bodies); 9 sets of concurrent large replies (45-75 KB together, against the 64 KiB HTTP/2 connection window); 9 variants of typed requests issued while a 20-55 KB raw-body download on the same channel is left unread (replies then start with a short frame and continue after the window update); the sequential and warm-concurrent workloads once more through send_owned; the warm-concurrent workload once more with one of the three clients of the channel configured with a 15 s timeout. Handler delays 0 / 0.5 s / 3 s, client timeout 2 s or none. For every script and combination each request must return Ok(id*10) for its own id with its payload echo intact, or a ConnectionError/Timeout status, nothing else and no panic; the handler runs at most once per id; with a timeout configured the call returns within 2 s (+5 ms) of simulated time. A simulation that aborts the process is isolated in a child process and reported as a violation.",
+        text="Workloads: three sequential requests; two concurrent first requests on a fresh channel; three concurrent requests on a warmed-up connection; one 1 MiB request (multi-chunk bodies); 9 sets of concurrent large replies (45-75 KB together, against the 64 KiB HTTP/2 connection window); 9 variants of typed requests issued while a 20-55 KB raw-body download on the same channel is left unread (replies then start with a short frame and continue after the window update); the sequential and warm-concurrent workloads once more through send_owned; the warm-concurrent workload once more with one of the three clients of the channel configured with a 15 s timeout. Handler delays 0 / 0.5 s / 3 s, client timeout 2 s or none. For every script and combination each request must return Ok(id*10) for its own id with its payload echo intact, or a ConnectionError/Timeout status, nothing else and no panic; the handler runs at most once per id; with a timeout configured the call returns within 2 s (+5 ms) of simulated time. A simulation that aborts the process is isolated in a child process and reported as a violation. A further workload prepares three calls first (send returns a lazy future) and awaits them one after the other, with handler delays {0, 0.5, 0.9, 3 s}: each call's timeout is its own.",
         note="turmoil 0.4 model: hold delays, partition drops without retransmission. A request without client timeout that never completes is an allowed outcome. turmoil 0.4's own TcpStream::poll_read panics when a segment does not fit the reader's buffer; scenarios that hit it are counted (<=5% by a guard) and not judged.",
         design="DESIGN.md section 3, C14",
     ),
@@ -60,7 +60,7 @@ CHECKS = {
         category="model_checking",
         engine="E1 refinement",
         technique="explicit-state BFS over the reference model's state graph; every transition re-executed on a fresh real backend (MemStore, SQLite memory/file, LMDB) by shortest-path replay, full read surface compared (refinement check); reopen as a transition",
-        text="Model = keyspace -> id -> (stamp, live bytes | tombstone). Alphabet: 2 keyspaces, ids {2, 2^63+1}, payloads {empty, x, 64 KiB}, 3 non-monotonic stamps, put / multi_put (incl. same id twice) / mark_as_tombstone (incl. absent ids and empty keyspaces) / mark_many / remove_tombstones (tombstoned ids only) / close-and-reopen. Every transition is executed on the real backend and get, multi_get, iter_metadata, keyspace list (asked before any other read, between the reads of two keyspaces and at the end, because a handle may answer from what it has touched so far) and raw SQLite rows must equal the model. Closure of the reduced alphabet on MemStore/SQLite and depth 3 with reopen on SQLite-file/LMDB (quick), full alphabet and LMDB/SQLite-file closure with reopen (thorough). Plus a subset-purge block over four ids {2^63+1, 2, 5, 9}: every assignment of the ids to absent/live/tombstone, every non-empty subset of the tombstones purged (both argument orders), on all four backends (968 scenarios).",
+        text="Model = keyspace -> id -> (stamp, live bytes | tombstone). Alphabet: 2 keyspaces, ids {2, 2^63+1}, payloads {empty, x, 64 KiB}, 3 non-monotonic stamps, put / multi_put (incl. same id twice) / mark_as_tombstone (incl. absent ids and empty keyspaces) / mark_many / remove_tombstones (tombstoned ids only) / close-and-reopen. Every transition is executed on the real backend and get, multi_get, iter_metadata, keyspace list (asked before any other read, between the reads of two keyspaces and at the end, because a handle may answer from what it has touched so far) and raw SQLite rows must equal the model. Closure of the reduced alphabet on MemStore/SQLite and depth 3 with reopen on SQLite-file/LMDB (quick), full alphabet and LMDB/SQLite-file closure with reopen (thorough). Plus a subset-purge block over four ids {2^63+1, 2, 5, 9}: every assignment of the ids to absent/live/tombstone, every non-empty subset of the tombstones purged (both argument orders), on all four backends (968 scenarios). multi_get is asked for every non-empty subset of the id universe (which includes id 0) in varying order, with and without a never-existing id, and with request lists of exactly 8 and 9 ids: a document that was not asked for must not come back.",
         note="I/O failures and torn writes are not modelled. Keyspace-list oracle allows empty keyspaces to be listed or not.",
         design="DESIGN.md section 3, C17",
     ),
@@ -68,7 +68,7 @@ CHECKS = {
         category="model_checking",
         engine="E1/E2 Layer B cluster (choice-point exploration by re-execution)",
         technique="stateless exploration of a real in-process cluster: exhaustive operation histories x deviation-bounded enumeration of every environment choice point (per-RPC deliver/lose request/lose reply incl. the requests of mid-history repair exchanges, extra flush/repair/restart events and one 55-minute jump (the history stays within one forgiveness period), a node unreachable until a chosen moment, late flushes, closing order) by re-execution from choice prefixes; plus all await-point interleavings (preemption-bounded) of two concurrent client operations",
-        text="Real nodes (Clock, KeyspaceGroup + actors, in-process RPC services, selector, distributor behind a flush gate, poller one cycle at a time, public ReplicatedStoreHandle) are driven through every history of put/del/put_many/del_many (levels None/All, One in thorough) on 2 keys: quick = N=2 with 2 ops <=2 deviations and 3 ops <=1, N=3 2 ops <=1, MemStore variant, lagging-node block, clock-skew block, faulty-repair blocks (1 op <=4, 2 ops <=2 deviations), an anti-entropy-only block (every direct message and batch lost, 3 ops <=1 deviation), a block with put_many carrying one id twice, 55-minute-jump block, two scripted 'sharp driver' skeletons (a node misses the first operation, 55 minutes pass, it receives the second one, restarts or not) with <=1 deviation on top, concurrency block (two operations, or a repair cycle racing with an operation, fine-grained) with <=3 preemptions (~1 M executions, 13 s); thorough = N=2 up to 4 ops / 3 deviations, N=3 up to 3 ops, every special block deeper, <=4 preemptions. After the closing exchanges (every ordered pair, order itself a choice) and again after late batch flushes all nodes must return the same live documents, equal per id to the locally issued write with the greatest stamp (from the issuers' storage logs); set/store agreement (C02) is a side condition on every node. The reference (greatest stamp per id among the operations issued) is read from the storage logs; a stamp counts as issued at a node only if it reached that node's storage first (global sequence numbers over all stores), so a stamp altered on the wire is not mistaken for an issued operation.",
+        text="Real nodes (Clock, KeyspaceGroup + actors, in-process RPC services, selector, distributor behind a flush gate, poller one cycle at a time, public ReplicatedStoreHandle) are driven through every history of put/del/put_many/del_many (levels None/All, One in thorough) on 2 keys: quick = N=2 with 2 ops <=2 deviations and 3 ops <=1, N=3 2 ops <=1, MemStore variant, lagging-node block, clock-skew block, faulty-repair blocks (1 op <=4, 2 ops <=2 deviations), an anti-entropy-only block (every direct message and batch lost, 3 ops <=1 deviation), a block with put_many carrying one id twice, 55-minute-jump block, two scripted 'sharp driver' skeletons (a node misses the first operation, 55 minutes pass, it receives the second one, restarts or not) with <=1 deviation on top, concurrency block (two operations, or a repair cycle racing with an operation, fine-grained) with <=3 preemptions (~1 M executions, 13 s); thorough = N=2 up to 4 ops / 3 deviations, N=3 up to 3 ops, every special block deeper, <=4 preemptions. After the closing exchanges (every ordered pair, order itself a choice) and again after late batch flushes all nodes must return the same live documents, equal per id to the locally issued write with the greatest stamp (from the issuers' storage logs); set/store agreement (C02) is a side condition on every node. The reference (greatest stamp per id among the operations issued) is read from the storage logs; a stamp counts as issued at a node only if it reached that node's storage first (global sequence numbers over all stores), so a stamp altered on the wire is not mistaken for an issued operation. The concurrency block also races a repair exchange with a directly replicated write at the node being read while every distributor batch is lost (the direct message can land between the repairing node's Diff and the bulk request applying it).",
         note="Bounded: 2-3 nodes, 2 keys, <=4 operations, <=3 deviations; fixed membership; repair requests are faulted in dedicated N=2 blocks only; the closing exchanges always complete. In-process transport instead of HTTP/2.",
         design="DESIGN.md section 3, C01",
     ),
@@ -92,7 +92,7 @@ CHECKS = {
         category="model_checking",
         engine="E2, Layer B single node",
         technique="stateless schedule exploration of all await-point interleavings of k concurrent first users of a fresh keyspace on a real node (five real entry paths), and of users of an existing keyspace against the group's real tombstone sweep task, re-execution from choice prefixes",
-        text="k=2 tasks (all 13 combinations of entry paths: group lookup + Set, public put, incoming ConsistencyService RPC, incoming GetState RPC, the node's own repair cycle against a peer holding the keyspace) over ALL interleavings, k=3 up to 2 (quick) / 6 (thorough) deviations, fine-grained mode (one task poll per step). After each execution the set returned by a new lookup must contain every acknowledged id and storage must hold exactly the acknowledged writes. Later uses: with the keyspace existing and the group's real hourly tombstone sweep task due, one or two tasks (four entry paths) interleaved with the sweep's steps one poll at a time (<=3/<=5 deviations); same oracle plus the earlier document must still be in the set. Two fresh keyspaces: each task makes the first use of its own fresh name (writer x {writer, GetState}, all schedules and fine-grained); each keyspace's set must hold its acknowledged ids.",
+        text="k=2 tasks (all 13 combinations of entry paths: group lookup + Set, public put, incoming ConsistencyService RPC, incoming GetState RPC, the node's own repair cycle against a peer holding the keyspace) over ALL interleavings, k=3 up to 2 (quick) / 6 (thorough) deviations, fine-grained mode (one task poll per step). After each execution the set returned by a new lookup must contain every acknowledged id and storage must hold exactly the acknowledged writes. Later uses: with the keyspace existing and the group's real hourly tombstone sweep task due, one or two tasks (four entry paths) interleaved with the sweep's steps one poll at a time (<=3/<=5 deviations); same oracle plus the earlier document must still be in the set. Two fresh keyspaces: each task makes the first use of its own fresh name (writer x {writer, GetState}, all schedules and fine-grained); each keyspace's set must hold its acknowledged ids. First uses of a fresh keyspace are also explored with the tombstone sweep coming due at a moment the explorer chooses (virtual time moving one hour is a schedulable step), so that the sweep can meet a keyspace that is registered but still empty.",
         note="Await-point granularity on a current-thread runtime; the property's window lies across awaits.",
         design="DESIGN.md section 3, C18",
     ),
@@ -108,7 +108,7 @@ CHECKS = {
         category="fault_enumeration",
         engine="E1 by replay + crash points, Layer B single node",
         technique="exhaustive crash-point enumeration over request histories on the real keyspace group/actors: after every history and inside every possible next request after each document written by storage; restart = fresh KeyspaceGroup + real load_states_from_storage on the same store, compared with the store's rows",
-        text="Histories over ~35 (quick) / ~65 (thorough) requests on two keyspaces (single and bulk, two ids sharing one stamp as put_many/del_many produce, same id twice, both sources, purge, transient storage failures of single requests, bulk calls failing part-way with a prefix or everything but the first document written) are enumerated breadth-first to depth 4/5 (state cap 30 k / 300 k, a cap hit is reported with the depth completed) and deduplicated by the node's whole state. At every crash point the rebuilt sets must hold exactly the live ids, tombstones and stamps storage holds for every keyspace storage lists, keyspaces with rows must be listed, the restarted node must keep agreeing with its store after one more request, every acknowledged request must be durable in storage (the newest acknowledged mutation per id, at that stamp or newer, unless behind the cut-off), and between requests the rebuilt set must accept every pool operation the pre-restart set accepted, for probes within one hour of everything the node has seen (a restart must not make the node refuse repair traffic inside the forgiveness period). Thorough adds file-backed SQLite and LMDB with a real stop (runtime dropped, LMDB worker thread joined, environment closed) and reopen; in-request crash points wait for the storage wrapper's park signal because these backends write on their own thread.",
+        text="Histories over ~35 (quick) / ~65 (thorough) requests on two keyspaces (single and bulk, two ids sharing one stamp as put_many/del_many produce, same id twice, both sources, purge, transient storage failures of single requests, bulk calls failing part-way with a prefix or everything but the first document written) are enumerated breadth-first to depth 4/5 (state cap 30 k / 300 k, a cap hit is reported with the depth completed) and deduplicated by the node's whole state. At every crash point the rebuilt sets must hold exactly the live ids, tombstones and stamps storage holds for every keyspace storage lists, keyspaces with rows must be listed, the restarted node must keep agreeing with its store after one more request, every acknowledged request must be durable in storage (the newest acknowledged mutation per id, at that stamp or newer, unless behind the cut-off), and between requests the rebuilt set must accept every pool operation the pre-restart set accepted, for probes within one hour of everything the node has seen (a restart must not make the node refuse repair traffic inside the forgiveness period). Thorough adds file-backed SQLite and LMDB with a real stop (runtime dropped, LMDB worker thread joined, environment closed) and reopen; in-request crash points wait for the storage wrapper's park signal because these backends write on their own thread. Both tiers additionally run file-backed SQLite and LMDB (real close and reopen) over ids whose byte order and signed order differ from their numeric order {1, 256, 65536, 2^63+1} with every subset of them deleted; an acknowledged put must be reported by storage as a live document with its bytes and an acknowledged delete as a tombstone.",
         note="Crash granularity = storage call boundaries and 'storage wrote k documents, set not yet updated'. Torn writes inside SQLite/LMDB are not modelled.",
         design="DESIGN.md section 3, C07",
     ),
@@ -132,7 +132,7 @@ CHECKS = {
         category="model_checking",
         engine="E1 Layer A",
         technique="local clauses: stateless DFS over timely delivery sequences with purge events on the real OrSWotSet (purge evaluated in every state, stale-operation probes); cluster clause: explicit-state DFS over a 2-3 replica model with explicit time and clock skew whose replicas are real OrSWotSet values, timeliness enforced by the explorer, differential oracle against a never-purging twin in every state",
-        text="Local: in every state reached by timely delivery sequences (pool with >1h gaps so purges fire, both sources, up to 2 purges, depth 6/8) a purge leaves lookups and live entries unchanged, returns only genuine tombstones older than min-over-sources minus 1h, never lowers a cut-off, and every operation from the deleting node not newer than a purged delete is refused without changing the state, right after the purge and in every later state of the history. Cluster: events issue / direct delivery / repair (real diff + actor-style batches) / purge / 20-minute time advance with skew {0,20} min; the explorer refuses to advance time while an operation would stay undelivered beyond 1h minus the skew spread; every state after a purge is compared with a twin that saw the same events without purges, and is also closed (pending deliveries, two full repair rounds) and compared with twin and the last-writer-wins reference (quick: 3.8 M model states, 7 k closings).",
+        text="Local: in every state reached by timely delivery sequences (pool with >1h gaps so purges fire, both sources, up to 2 purges, depth 6/8) a purge leaves lookups and live entries unchanged, returns only genuine tombstones older than min-over-sources minus 1h, never lowers a cut-off, and every operation from the deleting node not newer than a purged delete is refused without changing the state, right after the purge and in every later state of the history. Cluster: events issue / direct delivery / repair (real diff + actor-style batches) / purge / 20-minute time advance with skew {0,20} min; the explorer refuses to advance time while an operation would stay undelivered beyond 1h minus the skew spread; every state after a purge is compared with a twin that saw the same events without purges, and is also closed (pending deliveries, two full repair rounds) and compared with twin and the last-writer-wins reference (quick: 3.8 M model states, 7 k closings). Third block (actor): on the real keyspace actor behind the fault-injecting store, after a prefix that makes two tombstones purgeable, every sequence (length 4 quick / 5 thorough) of purges whose storage call succeeds / is refused / is refused for one document / fails after one, re-writes and re-deletes of the purged id, a stale insert of the deleting node, another node's write and unrelated writes; a purge (failed or not) must leave the live documents of set and storage untouched, the stale insert never becomes visible, and the end result equals that of a never-purging twin actor.",
         note="Cluster model replicas are real OrSWotSet values; the actor's batch glue is restated (bound to the code by C02/C01). Dedup key includes the path length because the event bound is a path property. 2-3 replicas, <=4 operations, 2 keys.",
         design="DESIGN.md section 3, C08",
     ),
